@@ -187,6 +187,7 @@ Definition pc_eqb (a b : plpc) : bool :=
   match a, b with
   | PcIdle, PcIdle | PcRaise1, PcRaise1 | PcRaise2, PcRaise2 | PcClear1, PcClear1 | PcClear2, PcClear2
   | PcGet1, PcGet1 | PcGet2, PcGet2 | PcGet3, PcGet3 => true
+  | PcGetA x, PcGetA y | PcGetB x, PcGetB y => Bool.eqb x y
   | _, _ => false
   end.
 Definition ob_eqb (a b : option bool) : bool :=
@@ -195,7 +196,9 @@ Definition plc_eqb (a b : plconc) : bool :=
   Bool.eqb (plb_raised (pc_p a)) (plb_raised (pc_p b)) && ob_eqb (plb_fd (pc_p a)) (plb_fd (pc_p b)) &&
   pc_eqb (pc_mut a) (pc_mut b) && pc_eqb (pc_get a) (pc_get b).
 Lemma pc_eqb_eq a b : pc_eqb a b = true -> a = b.
-Proof. destruct a, b; cbn; congruence. Qed.
+Proof. destruct a as [| | | | | | | |[|]|[|]], b as [| | | | | | | |[|]|[|]]; cbn; congruence. Qed.
+Lemma pc_eqb_refl a : pc_eqb a a = true.
+Proof. destruct a as [| | | | | | | |[|]|[|]]; reflexivity. Qed.
 Lemma plc_eqb_eq a b : plc_eqb a b = true -> a = b.
 Proof.
   destruct a as [[r1 f1] m1 g1], b as [[r2 f2] m2 g2]. unfold plc_eqb. cbn.
@@ -204,38 +207,34 @@ Proof.
   destruct f1 as [x|], f2 as [y|]; cbn in Hf; try discriminate; [apply Bool.eqb_prop in Hf; subst|]; reflexivity.
 Qed.
 Lemma plc_eqb_refl a : plc_eqb a a = true.
-Proof. destruct a as [[r [f|]] m g]; unfold plc_eqb; cbn; destruct r, m, g; try destruct f; reflexivity. Qed.
+Proof. destruct a as [[r [f|]] m g]; unfold plc_eqb; cbn; rewrite !pc_eqb_refl; destruct r; try destruct f; reflexivity. Qed.
 Definition plc_mem (c : plconc) (l : list plconc) : bool := existsb (plc_eqb c) l.
 Lemma plc_mem_in c l : plc_mem c l = true -> In c l.
 Proof. unfold plc_mem. intros H. apply existsb_exists in H as (x & Hx & E). apply plc_eqb_eq in E. now subst. Qed.
 Lemma plc_in_mem c l : In c l -> plc_mem c l = true.
 Proof. intros H. apply existsb_exists. exists c. split; auto. apply plc_eqb_refl. Qed.
 
-Definition all_pcs : list plpc := [PcIdle; PcRaise1; PcRaise2; PcClear1; PcClear2; PcGet1; PcGet2; PcGet3].
-Definition all_plc : list plconc :=
-  flat_map (fun r => flat_map (fun f => flat_map (fun m => map (fun g => mkPlc (mkPl r f) m g) all_pcs) all_pcs)
-                                      [None; Some false; Some true]) [false; true].
 (* the states reachable under a set of allowed actions, by saturation *)
 Fixpoint nodup_add (l seen : list plconc) : list plconc :=
   match l with [] => seen | c :: r => if plc_mem c seen then nodup_add r seen else nodup_add r (c :: seen) end.
-Fixpoint grow (acts : list plact) (fuel : nat) (seen : list plconc) : list plconc :=
+Fixpoint grow (gfix : bool) (acts : list plact) (fuel : nat) (seen : list plconc) : list plconc :=
   match fuel with
   | O => seen
   | S f =>
-      let next := flat_map (fun c => map (fun a => plb_astep c a) acts) seen in
+      let next := flat_map (fun c => map (fun a => plb_astep gfix c a) acts) seen in
       let seen' := nodup_add next seen in
-      if length seen' =? length seen then seen else grow acts f seen'
+      if length seen' =? length seen then seen else grow gfix acts f seen'
   end.
-Definition closed_under (acts : list plact) (S : list plconc) : bool :=
-  forallb (fun c => forallb (fun a => plc_mem (plb_astep c a) S) acts) S.
+Definition closed_under (gfix : bool) (acts : list plact) (S : list plconc) : bool :=
+  forallb (fun c => forallb (fun a => plc_mem (plb_astep gfix c a) S) acts) S.
 
-Lemma closed_step acts S c a : closed_under acts S = true -> In c S -> In a acts -> In (plb_astep c a) S.
+Lemma closed_step gfix acts S c a : closed_under gfix acts S = true -> In c S -> In a acts -> In (plb_astep gfix c a) S.
 Proof.
   intros H Hc Ha. unfold closed_under in H. rewrite forallb_forall in H. specialize (H c Hc).
   rewrite forallb_forall in H. apply plc_mem_in. now apply H.
 Qed.
-Lemma closed_run acts S : closed_under acts S = true ->
-  forall l c, In c S -> Forall (fun a => In a acts) l -> In (plb_arun c l) S.
+Lemma closed_run gfix acts S : closed_under gfix acts S = true ->
+  forall l c, In c S -> Forall (fun a => In a acts) l -> In (plb_arun gfix c l) S.
 Proof.
   intros H. induction l as [|a r IH]; intros c Hc Hl; cbn; [exact Hc|].
   inversion Hl; subst. apply IH; auto. eapply closed_step; eauto.
@@ -244,15 +243,15 @@ Qed.
 (* all actions; actions without a clear *)
 Definition acts_all : list plact := [ActMut PlRaise; ActMut PlClear; ActMutStep; ActGet; ActGetStep].
 Definition acts_noclear : list plact := [ActMut PlRaise; ActMutStep; ActGet; ActGetStep].
-Definition reach_all : list plconc := grow acts_all 64 [plc_init].
-Definition reach_noclear : list plconc := grow acts_noclear 64 [plc_init].
+Definition reach_noclear : list plconc := grow false acts_noclear 64 [plc_init].
+Definition reach_fixed : list plconc := grow true acts_all 64 [plc_init].
 
 Definition quiescentb (c : plconc) : bool := pc_eqb (pc_mut c) PcIdle && pc_eqb (pc_get c) PcIdle.
 Definition levelb (c : plconc) : bool :=
   match plb_fd (pc_p c) with None => true | Some sig => Bool.eqb sig (plb_raised (pc_p c)) end.
 
 (* first getfd racing raises only: at every quiescent point the descriptor (if created) shows the flag *)
-Lemma reach_noclear_closed : closed_under acts_noclear reach_noclear = true.
+Lemma reach_noclear_closed : closed_under false acts_noclear reach_noclear = true.
 Proof. vm_compute. reflexivity. Qed.
 Lemma reach_noclear_init : plc_mem plc_init reach_noclear = true.
 Proof. vm_compute. reflexivity. Qed.
@@ -260,11 +259,11 @@ Lemma reach_noclear_level : forallb (fun c => negb (quiescentb c) || levelb c) r
 Proof. vm_compute. reflexivity. Qed.
 Theorem plb_concurrent_raise_holds l :
   Forall (fun a => In a acts_noclear) l ->
-  let c := plb_arun plc_init l in
+  let c := plb_arun false plc_init l in
   plc_quiescent c -> match plb_fd (pc_p c) with None => True | Some sig => sig = plb_raised (pc_p c) end.
 Proof.
   intros Hl c [Qm Qg].
-  pose proof (closed_run _ _ reach_noclear_closed l plc_init (plc_mem_in _ _ reach_noclear_init) Hl) as Hin.
+  pose proof (closed_run _ _ _ reach_noclear_closed l plc_init (plc_mem_in _ _ reach_noclear_init) Hl) as Hin.
   pose proof reach_noclear_level as Hp.
   rewrite forallb_forall in Hp. specialize (Hp _ Hin). fold c in Hp. clear Hin.
   unfold quiescentb in Hp. rewrite Qm, Qg in Hp. cbn [pc_eqb andb negb orb] in Hp. unfold levelb in Hp.
@@ -278,15 +277,36 @@ Definition plb_clear_race : list plact :=
   [ActMut PlRaise; ActMutStep; ActGet; ActGetStep; ActGetStep; ActMut PlClear; ActMutStep; ActMutStep; ActGetStep].
 Theorem plb_concurrent_clear_refuted :
   exists l, Forall (fun a => In a acts_all) l /\
-    let c := plb_arun plc_init l in
+    let c := plb_arun false plc_init l in
     plc_quiescent c /\ plb_raised (pc_p c) = false /\ plb_fd (pc_p c) = Some true /\
     (* a further clear does not repair it *)
-    plb_fd (pc_p (plb_arun c [ActMut PlClear; ActMutStep; ActMutStep])) = Some true.
+    plb_fd (pc_p (plb_arun false c [ActMut PlClear; ActMutStep; ActMutStep])) = Some true.
 Proof.
   exists plb_clear_race. split.
-  - unfold plb_clear_race, acts_all. repeat constructor; cbn; tauto.
+  - unfold plb_clear_race, acts_all. repeat (apply Forall_cons; [cbn; tauto|]). apply Forall_nil.
   - vm_compute. repeat split; reflexivity.
 Qed.
+(* with the proposed repair of nni_pollable_getfd (PollModel.plb_astep true) the level holds at every quiescent
+   point of every interleaving of one mutator thread (any raises and clears) with the first getfd *)
+Lemma reach_fixed_closed : closed_under true acts_all reach_fixed = true.
+Proof. vm_compute. reflexivity. Qed.
+Lemma reach_fixed_init : plc_mem plc_init reach_fixed = true.
+Proof. vm_compute. reflexivity. Qed.
+Lemma reach_fixed_level : forallb (fun c => negb (quiescentb c) || levelb c) reach_fixed = true.
+Proof. vm_compute. reflexivity. Qed.
+Theorem plb_concurrent_holds_when_fixed l :
+  Forall (fun a => In a acts_all) l ->
+  let c := plb_arun true plc_init l in
+  plc_quiescent c -> match plb_fd (pc_p c) with None => True | Some sig => sig = plb_raised (pc_p c) end.
+Proof.
+  intros Hl c [Qm Qg].
+  pose proof (closed_run _ _ _ reach_fixed_closed l plc_init (plc_mem_in _ _ reach_fixed_init) Hl) as Hin.
+  pose proof reach_fixed_level as Hp.
+  rewrite forallb_forall in Hp. specialize (Hp _ Hin). fold c in Hp. clear Hin.
+  unfold quiescentb in Hp. rewrite Qm, Qg in Hp. cbn [pc_eqb andb negb orb] in Hp. unfold levelb in Hp.
+  destruct (plb_fd (pc_p c)) as [sig|]; [|exact I]. apply Bool.eqb_prop in Hp. exact Hp.
+Qed.
+
 (* without overlap (every call runs to completion before the next begins) the interleaving model is the sequential one *)
 Definition seq_acts (o : plop) : list plact :=
   match o with
@@ -294,12 +314,12 @@ Definition seq_acts (o : plop) : list plact :=
   | PlClear => [ActMut PlClear; ActMutStep; ActMutStep]
   | PlGetFd => [ActGet; ActGetStep; ActGetStep; ActGetStep]
   end.
-Lemma seq_acts_step p o : plb_arun (mkPlc p PcIdle PcIdle) (seq_acts o) = mkPlc (plb_step p o) PcIdle PcIdle.
+Lemma seq_acts_step p o : plb_arun false (mkPlc p PcIdle PcIdle) (seq_acts o) = mkPlc (plb_step p o) PcIdle PcIdle.
 Proof. destruct p as [r [sig|]]; destruct o; destruct r; try destruct sig; reflexivity. Qed.
-Lemma plb_arun_app c l1 l2 : plb_arun c (l1 ++ l2) = plb_arun (plb_arun c l1) l2.
+Lemma plb_arun_app g c l1 l2 : plb_arun g c (l1 ++ l2) = plb_arun g (plb_arun g c l1) l2.
 Proof. revert c. induction l1 as [|a r IH]; intros; cbn; auto. Qed.
 Theorem plb_sequential_refines ops : forall p,
-  plb_arun (mkPlc p PcIdle PcIdle) (flat_map seq_acts ops) = mkPlc (plb_run p ops) PcIdle PcIdle.
+  plb_arun false (mkPlc p PcIdle PcIdle) (flat_map seq_acts ops) = mkPlc (plb_run p ops) PcIdle PcIdle.
 Proof.
   induction ops as [|o r IH]; intros p; [reflexivity|]. cbn [flat_map plb_run].
   now rewrite plb_arun_app, seq_acts_step, IH.
@@ -310,53 +330,58 @@ Qed.
    itself reported a timeout), otherwise what the protocol reported; after a failed nng_sendmsg the caller
    still owns the message, after a successful one it does not; nng_send frees exactly the message it made
    itself when the send fails *)
+Ltac api_cases r :=
+  unfold api_send, api_sendmsg, api_recvmsg, aio_outcome, api_map, E_TIMEDOUT, E_AGAIN, E_OK in *; cbn [andb];
+  destruct (N.eqb_spec r 0); destruct (N.eqb_spec r 5); subst; cbn; try lia;
+  repeat split; intros; try reflexivity; try congruence; try discriminate; try lia.
+
 Theorem api_sendmsg_nonblock msg pr :
   let '(rv, kept, waited) := api_sendmsg true msg pr in
-  waited = false /\ (kept = true <-> rv <> E_OK) /  match pr with
+  waited = false /\ (kept = true <-> rv <> E_OK) /\
+  match pr with
   | PrStart _ _ => rv = E_AGAIN /\ kept = true
   | PrDone r _ => rv = (if N.eqb r E_TIMEDOUT then E_AGAIN else r)
   end.
 Proof.
-  destruct pr as [r m|later m]; cbn.
-  - split; [reflexivity|]. split.
-    + destruct (N.eqb_spec r 0) as [->|Hr]; cbn; [split; [discriminate|intros H; now elim H]|].
-      split; [intros _|reflexivity]. destruct (N.eqb_spec r E_TIMEDOUT); [discriminate|exact Hr].
-    + reflexivity.
-  - repeat split; try reflexivity; try discriminate.
+  destruct pr as [r m|later m].
+  - api_cases r.
+  - cbn. repeat split; intros; try reflexivity; discriminate.
 Qed.
 Theorem api_recvmsg_nonblock pr :
   let '(rv, got, waited) := api_recvmsg true pr in
-  waited = false /\ (got <> None -> rv = E_OK) /  match pr with
+  waited = false /\ (got <> None -> rv = E_OK) /\
+  match pr with
   | PrStart _ _ => rv = E_AGAIN /\ got = None
   | PrDone r m => rv = (if N.eqb r E_TIMEDOUT then E_AGAIN else r) /\ (r = E_OK -> got = m)
   end.
 Proof.
-  destruct pr as [r m|later m]; cbn.
-  - split; [reflexivity|]. split.
-    + destruct (N.eqb_spec r 0) as [->|Hr]; cbn; [reflexivity|congruence].
-    + split; [reflexivity|]. intros ->. reflexivity.
-  - repeat split; try reflexivity; try discriminate. congruence.
+  destruct pr as [r m|later m].
+  - api_cases r.
+  - cbn. repeat split; intros; try reflexivity; congruence.
 Qed.
 (* the blocking form differs from the NONBLOCK form only where the protocol has to wait *)
 Theorem api_nonblock_same_when_ready msg rv m :
-  api_sendmsg true msg (PrDone rv m) = (api_map true rv, negb (N.eqb rv 0), false) /  api_sendmsg false msg (PrDone rv m) = (rv, negb (N.eqb rv 0), false) /  api_recvmsg true (PrDone rv m) = (api_map true rv, (if N.eqb rv 0 then m else None), false) /  api_recvmsg false (PrDone rv m) = (rv, (if N.eqb rv 0 then m else None), false).
+  api_sendmsg true msg (PrDone rv m) = (api_map true rv, negb (N.eqb rv 0), false) /\
+  api_sendmsg false msg (PrDone rv m) = (rv, negb (N.eqb rv 0), false) /\
+  api_recvmsg true (PrDone rv m) = (api_map true rv, (if N.eqb rv 0 then m else None), false) /\
+  api_recvmsg false (PrDone rv m) = (rv, (if N.eqb rv 0 then m else None), false).
 Proof. repeat split. Qed.
 Theorem api_send_frees_own_copy nb body pr :
   let '(rv, freed, waited) := api_send nb body pr in
   (rv <> E_OK -> freed = [mkPmsg [] body]) /\ (rv = E_OK -> freed = []).
 Proof.
-  unfold api_send, api_sendmsg. destruct pr as [r m|later m]; destruct nb; cbn.
-  - destruct (N.eqb_spec r 0) as [->|Hr]; cbn; [split; [intros H; now elim H|reflexivity]|].
-    split; [reflexivity|]. destruct (N.eqb_spec r E_TIMEDOUT); [discriminate|congruence].
-  - destruct (N.eqb_spec r 0) as [->|Hr]; cbn; [split; [intros H; now elim H|reflexivity]|]. split; [reflexivity|congruence].
-  - split; [reflexivity|discriminate].
-  - destruct (N.eqb_spec later 0) as [->|Hr]; cbn; [split; [intros H; now elim H|reflexivity]|]. split; [reflexivity|congruence].
+  destruct pr as [r m|r m]; destruct nb.
+  - api_cases r.
+  - api_cases r.
+  - cbn. split; intros; [reflexivity|discriminate].
+  - api_cases r.
 Qed.
 (* composed with a protocol model: the NONBLOCK step of a model already answers E_AGAIN where nni_aio_start
    refuses, so the API result is the model's result and the call did not wait, provided the step completed the aio *)
 Theorem api_over_model a outs rv x msg :
   compl_of a outs = [(rv, x)] -> rv <> E_TIMEDOUT ->
-  api_sendmsg true msg (reply_of_step a outs) = (rv, negb (N.eqb rv 0), false) /  api_recvmsg true (reply_of_step a outs) = (rv, (if N.eqb rv 0 then x else None), false).
+  api_sendmsg true msg (reply_of_step a outs) = (rv, negb (N.eqb rv 0), false) /\
+  api_recvmsg true (reply_of_step a outs) = (rv, (if N.eqb rv 0 then x else None), false).
 Proof.
   intros H Hr. unfold reply_of_step. rewrite H. cbn. unfold api_map.
   destruct (N.eqb_spec rv E_TIMEDOUT); [contradiction|]. cbn. auto.
